@@ -36,6 +36,13 @@ Theorem C15_threshold_monotone : forall (npre : Z) (cum : list R) (f1 f2 : R), f
 Proof. exact threshold_monotone. Qed.
 Print Assumptions C15_threshold_monotone.
 
+(* the count is always a valid number of modes, for every list of cumulative fractions *)
+Theorem C15_threshold_in_range : forall (cum : list R) (frac : R), (1 <= length cum)%nat ->
+  let k := Z.of_nat (length cum) in
+  (1 <= fst (dec_n_modes_clipped OR k cum frac) <= k)%Z /\ (1 <= fst (svd_n_modes_clipped OR k cum frac) <= k)%Z.
+Proof. exact threshold_in_range. Qed.
+Print Assumptions C15_threshold_in_range.
+
 Theorem C15_threshold_strict_variant_refuted :
   exists cum frac, frac <= nth 0 cum 0 /\ n_modes_required_strict 2 cum frac = 2%Z /\
                    fst (dec_n_modes_clipped OR 2 cum frac) = 1%Z.
